@@ -253,3 +253,191 @@ Proof. unfold bytes_ok. intros. now apply Forall_app. Qed.
 
 Lemma bytes_ok_zeros n : bytes_ok (zeros n).
 Proof. unfold bytes_ok, zeros. apply Forall_forall. intros x Hx. apply repeat_spec in Hx. subst. lia. Qed.
+
+(** * field tables *)
+
+Lemma len_enc_fld be f : len (enc_fld be f) = fld_len f.
+Proof. destruct f; cbn [enc_fld fld_len]; [apply len_put32 | apply len_put64 | apply len_fit]. Qed.
+
+Fixpoint flds_len (fs : list fld) : N :=
+  match fs with [] => 0 | f :: t => fld_len f + flds_len t end.
+
+Lemma len_enc_flds be fs : len (enc_flds be fs) = flds_len fs.
+Proof.
+  induction fs as [| f t IH]; [reflexivity |].
+  unfold enc_flds in *. cbn [flat_map flds_len]. now rewrite len_app, len_enc_fld, IH.
+Qed.
+
+(** reading exactly the field that starts at [off] *)
+Lemma read_fld be fs rest off f :
+  fld_at fs off = Some f ->
+  read_of (enc_flds be fs ++ rest) off (fld_len f) = enc_fld be f.
+Proof.
+  revert off. induction fs as [| g t IH]; intros off H; [discriminate |].
+  cbn [fld_at] in H. unfold enc_flds in *. cbn [flat_map]. rewrite <- app_assoc.
+  destruct (N.eqb_spec off 0) as [Hoff | Hoff].
+  - subst off. injection H as <-. rewrite <- (len_enc_fld be g). apply read_of_exact.
+  - destruct (N.ltb_spec off (fld_len g)); [discriminate |].
+    rewrite read_of_skip by (rewrite len_enc_fld; lia).
+    rewrite len_enc_fld. now apply IH.
+Qed.
+
+Lemma get32_fld be fs rest off v :
+  fld_at fs off = Some (F32 v) -> v < 2^32 ->
+  get be (read_of (enc_flds be fs ++ rest) off 4) = v.
+Proof.
+  intros H Hv. pose proof (read_fld be fs rest off (F32 v) H) as E.
+  cbn [fld_len enc_fld] in E. rewrite E. unfold put32. now apply get_put.
+Qed.
+
+Lemma get64_fld be fs rest off v :
+  fld_at fs off = Some (F64 v) -> v < 2^64 ->
+  get be (read_of (enc_flds be fs ++ rest) off 8) = v.
+Proof.
+  intros H Hv. pose proof (read_fld be fs rest off (F64 v) H) as E.
+  cbn [fld_len enc_fld] in E. rewrite E. unfold put64. now apply get_put.
+Qed.
+
+(** [getNN] on a chunk that was read from a file *)
+Lemma get32_read be f o n off :
+  off + 4 <= n -> get32 be (read_of f o n) off = get be (read_of f (o + off) 4).
+Proof. intro H. unfold get32. now rewrite sub_read_of. Qed.
+
+Lemma get64_read be f o n off :
+  off + 8 <= n -> get64 be (read_of f o n) off = get be (read_of f (o + off) 8).
+Proof. intro H. unfold get64. now rewrite sub_read_of. Qed.
+
+(** little- and big-endian views of zero and of each other *)
+Lemma get_zeros be n : get be (zeros n) = 0.
+Proof.
+  assert (H : forall k, le_get (repeat 0 k) = 0).
+  { induction k; [reflexivity |]. cbn [repeat le_get]. rewrite IHk. reflexivity. }
+  unfold get, be_get, zeros. destruct be; [| apply H].
+  assert (Hr : forall k, rev (repeat 0 k) = repeat 0 k).
+  { induction k; [reflexivity |]. cbn [repeat rev]. rewrite IHk.
+    clear. induction k; [reflexivity |]. cbn [repeat app]. now rewrite IHk. }
+  rewrite Hr. apply H.
+Qed.
+
+Lemma put_zero be n : put be n 0 = zeros (N.of_nat n).
+Proof.
+  assert (H : forall k, le_put k 0 = repeat 0 k).
+  { induction k; [reflexivity |]. cbn [le_put repeat].
+    change (0 / 256) with 0. change (0 mod 256) with 0. now rewrite IHk. }
+  unfold put, be_put, zeros. rewrite Nat2N.id. destruct be; [| apply H].
+  rewrite H. clear. induction n; [reflexivity |]. cbn [repeat rev]. rewrite IHn.
+  clear. induction n; [reflexivity |]. cbn [repeat app]. now rewrite IHn.
+Qed.
+
+Lemma sub_eq_read_of l off k : off + k <= len l -> sub l off k = read_of l off k.
+Proof.
+  intro H. rewrite <- (read_of_len l) at 1. now rewrite sub_read_of.
+Qed.
+
+Lemma get32_flds be fs off v :
+  fld_at fs off = Some (F32 v) -> v < 2^32 -> off + 4 <= flds_len fs ->
+  get32 be (enc_flds be fs) off = v.
+Proof.
+  intros H Hv Hl. unfold get32. rewrite sub_eq_read_of by (now rewrite len_enc_flds).
+  rewrite <- (app_nil_r (enc_flds be fs)). now apply get32_fld.
+Qed.
+
+Lemma get64_flds be fs off v :
+  fld_at fs off = Some (F64 v) -> v < 2^64 -> off + 8 <= flds_len fs ->
+  get64 be (enc_flds be fs) off = v.
+Proof.
+  intros H Hv Hl. unfold get64. rewrite sub_eq_read_of by (now rewrite len_enc_flds).
+  rewrite <- (app_nil_r (enc_flds be fs)). now apply get64_fld.
+Qed.
+
+Lemma Forall2_nth_error {A B} (R : A -> B -> Prop) a b : Forall2 R a b ->
+  forall k, match nth_error a k, nth_error b k with
+            | Some x, Some y => R x y
+            | None, None => True
+            | _, _ => False
+            end.
+Proof.
+  induction 1 as [| x y a b Hxy Hab IH]; intro k; destruct k; cbn [nth_error]; auto.
+  apply IH.
+Qed.
+
+(** * concatenations and halves *)
+
+Lemma le_get_app a b : le_get (a ++ b) = le_get a + 256 ^ len a * le_get b.
+Proof.
+  induction a as [| x t IH]; cbn [app le_get].
+  - rewrite len_nil, N.pow_0_r. lia.
+  - rewrite IH, len_cons. replace (1 + len t) with (N.succ (len t)) by lia.
+    rewrite N.pow_succ_r'. lia.
+Qed.
+
+Lemma le_put_split n m v :
+  le_put (n + m) v = le_put n v ++ le_put m (v / 256 ^ N.of_nat n).
+Proof.
+  revert v. induction n as [| n IH]; intro v.
+  - cbn [Nat.add le_put app N.of_nat]. now rewrite N.pow_0_r, N.div_1_r.
+  - cbn [Nat.add le_put app]. f_equal. rewrite IH. f_equal. f_equal.
+    replace (N.of_nat (S n)) with (N.succ (N.of_nat n)) by lia.
+    rewrite N.pow_succ_r', N.div_div by (try apply N.pow_nonzero; discriminate). reflexivity.
+Qed.
+
+Lemma le_put_mod n v : le_put n (v mod 256 ^ N.of_nat n) = le_put n v.
+Proof.
+  revert v. induction n as [| n IH]; intro v; [reflexivity |].
+  cbn [le_put]. replace (N.of_nat (S n)) with (N.succ (N.of_nat n)) by lia.
+  rewrite N.pow_succ_r'.
+  assert (Hnz : 256 ^ N.of_nat n <> 0) by (apply N.pow_nonzero; discriminate).
+  rewrite N.mod_mul_r by (assumption || discriminate).
+  rewrite (N.mul_comm 256 ((v / 256) mod 256 ^ N.of_nat n)).
+  f_equal.
+  - rewrite N.mod_add by discriminate. apply N.mod_mod. discriminate.
+  - rewrite N.div_add by discriminate.
+    rewrite (N.div_small (v mod 256)) by (apply N.mod_lt; discriminate).
+    rewrite N.add_0_l. apply IH.
+Qed.
+
+(** a 64-bit value is its two 32-bit halves, in the order of the byte order *)
+Lemma put64_halves be v :
+  put64 be v = if be then put32 be (v / 2^32) ++ put32 be (v mod 2^32)
+               else put32 be (v mod 2^32) ++ put32 be (v / 2^32).
+Proof.
+  unfold put64, put32, put, be_put.
+  change 8%nat with (4 + 4)%nat. rewrite le_put_split.
+  change (256 ^ N.of_nat 4) with (2^32).
+  rewrite <- (le_put_mod 4 v). change (256 ^ N.of_nat 4) with (2^32).
+  destruct be; [rewrite rev_app_distr |]; reflexivity.
+Qed.
+
+Lemma get_zeros_app be n b :
+  get be (zeros n ++ b) = if be then get be b else 256 ^ n * get be b.
+Proof.
+  unfold get, be_get. destruct be.
+  - rewrite rev_app_distr, le_get_app.
+    assert (H : le_get (rev (zeros n)) = 0) by (apply (get_zeros true)).
+    rewrite H. lia.
+  - rewrite le_get_app. assert (H : le_get (zeros n) = 0) by (apply (get_zeros false)).
+    rewrite H, len_zeros. lia.
+Qed.
+
+Lemma read_of_add f off a b : read_of f off (a + b) = read_of f off a ++ read_of f (off + a) b.
+Proof.
+  apply (nth_ext _ _ 0 0).
+  - rewrite app_length, !read_of_length. lia.
+  - intros i Hi. rewrite read_of_length in Hi.
+    rewrite read_of_nth by assumption.
+    destruct (Nat.lt_ge_cases i (N.to_nat a)).
+    + rewrite app_nth1 by (rewrite read_of_length; lia). now rewrite read_of_nth.
+    + rewrite app_nth2 by (rewrite read_of_length; lia). rewrite read_of_length.
+      rewrite read_of_nth by lia. f_equal. lia.
+Qed.
+
+Lemma read_of_exact' b f n : n = len b -> read_of (b ++ f) 0 n = b.
+Proof. intros ->. apply read_of_exact. Qed.
+
+Lemma read_of_section' a b f off n :
+  off = len a -> n = len b -> read_of (a ++ b ++ f) off n = b.
+Proof. intros -> ->. apply read_of_section. Qed.
+
+Lemma read_of_last' a b off n :
+  off = len a -> n = len b -> read_of (a ++ b) off n = b.
+Proof. intros -> ->. rewrite <- (app_nil_r b) at 1. apply read_of_section. Qed.
